@@ -10,6 +10,7 @@ func checkC11(p *Program, tier string) *Result {
 	ruleAuthorProvenance(p, r, evals)
 	ruleScopeWins(p, r)
 	ruleBuildKeepsConfig(p, r)
+	ruleRuleList(p, r)
 	r.Trusted = append(r.Trusted, "regexp implements RE2 semantics of ^(?:...)$ (whole-string match without (?m))", "strings.Join/TrimSpace")
 	r.Assumptions = append(r.Assumptions, "the exact argument list returned by a session authorization (value semantics of the service matcher over all configurations) is not decided")
 	return r
